@@ -685,6 +685,9 @@ def r17_name_keyed_state(c, facts, rule='C08.R17'):
     for name, ty in adt['variants'][0]['fields']:
         n += 1
         keyed = re.match(r'^(?:std::rc::Rc<|std::cell::RefCell<|std::boxed::Box<)*(?:[\w:]*::)?(IndexMap|HashMap|BTreeMap|IndexSet|HashSet|BTreeSet)<(?:&\S* )?oal_syntax::atom::Ident\b', ty)
+        # ... or any other state that remembers an identifier beside the scope stack (a one-entry memo of the last look-up)
+        if not keyed and name != 'scopes' and re.search(r'\boal_syntax::atom::Ident\b', ty):
+            keyed = True
         inst = {'field': name, 'type': ty[:120]}
         if not keyed:
             c.ok(R, inst)
@@ -721,6 +724,35 @@ def r18_clash_same_scope(c, facts, rule='C08.R18'):
     c.floor(R, 'sites raising InvalidIdentifier in the resolver', n, 2)
 
 
+def r20_import_whole(c, facts, rule='C08.R20'):
+    """an import brings in every declaration of the imported module, under the import's qualifier: no iteration of
+    declare_import's loop over the declarations reaches the next one without Env::declare (or the error exit). Leaving
+    out the names the importer declares itself also leaves out `lib.item`, whose binder is the import."""
+    R = c.rule(rule, 'IMPORT-WHOLE: declare_import declares every declaration of the imported module (no declaration is skipped)')
+    fn = facts.normalised(c.anchor(R, 'oal_compiler::resolve::declare_import'))
+    units = [fn]
+    loops = [(fn, b, t) for b, t in P.call_blocks(fn, 'Iterator::next') if 'Declaration' in fn.mir['locals'][t['dest']['l']]['ty']]
+    if not loops:
+        # `program.declarations().try_for_each(|decl| ..)`: the closure is one iteration
+        for cl in facts.closures_of(facts.fns.get(fn.id, fn)):
+            if cl.mir and P.call_blocks(cl, 'env::Env::declare'):
+                decl = {b for b, t in P.call_blocks(cl, 'env::Env::declare')}
+                if P.success_return_reachable(cl, 0, decl):
+                    c.bad(R, 'declaration-not-imported', 'the closure declare_import applies to every declaration of the imported module can succeed without declaring it')
+                else:
+                    c.ok(R, {'form': 'closure'})
+                return
+        c.skip(R, 'declare_import', 'loop over the declarations of the imported module not found')
+        return
+    for g, b, t in loops:
+        decl = {bb for bb, tt in P.call_blocks(g, 'env::Env::declare')}
+        err = P.err_blocks(g)
+        if b in g.reachable_from(t['target'], avoid=decl | err):
+            c.bad(R, 'declaration-not-imported', 'declare_import can go on to the next declaration of the imported module without having declared the present one: a qualified use of it (whose only binder is the import) is "not in scope"')
+        else:
+            c.ok(R, {'form': 'loop', 'declare sites': len(decl)})
+
+
 def r14_same_winner(c, facts, rule='C08.R14'):
     """two binders of one name in one scope (`let pick x x = x`): the resolver and the evaluator must agree on which one
     a use denotes - both tables are written by a plain insert (the later binder replaces the earlier one)"""
@@ -746,6 +778,7 @@ def run(c, facts):
     c.shared(R16, _c10.r6_complete, 'C10.R6', facts)
     c.run(r15_imports_declared, facts)
     c.run(r14_same_winner, facts)
+    c.run(r20_import_whole, facts)
     R19 = c.rule('C08.R19', 'LOCATOR-IDENTITY: two imports are one module exactly when their locators are the same URL - the identity of Locator (eq / hash / ord) is the derived one, so a qualified name binds into the module its own `use` names (shared with C10.R10)')
     c.shared(R19, _c10.r10_locator_identity, 'C10.R10', facts)
     c.run(r18_clash_same_scope, facts)
